@@ -485,3 +485,10 @@ func init() {
 	addMutant(Mutant{Name: "c18-strip-prefix-last-segment", Property: "C18", File: "util/path.go",
 		Old: "\tcase 2:\n\t\treturn ps[1]\n\tdefault:\n\t\treturn name\n\t}\n}\n\n// ReplacePathSuffix", New: "\tdefault:\n\t\treturn ps[len(ps)-1]\n\t}\n}\n\n// ReplacePathSuffix", Expect: "StripModulePrefix:return#"})
 }
+
+func init() {
+	addMutant(Mutant{Name: "c17-leaflist-enum-set-discarded", Property: "C17", File: "ygot/render.go",
+		Old: "\t\t\t\tname, set, err := enumFieldToString(e, prependModuleNameIref)\n\t\t\t\tif err != nil {\n\t\t\t\t\treturn nil, err\n\t\t\t\t}\n\t\t\t\tif !set {\n\t\t\t\t\treturn nil, fmt.Errorf(\"leaf-list has an unset enumeration of type %T as a member\", e.Interface())\n\t\t\t\t}\n", New: "\t\t\t\tname, _, err := enumFieldToString(e, prependModuleNameIref)\n\t\t\t\tif err != nil {\n\t\t\t\t\treturn nil, err\n\t\t\t\t}\n", Expect: "leaflistToSlice:enumFieldToString#1:set-read"})
+	addMutant(Mutant{Name: "c12-orderedmap-emptiness-by-struct-zero", Property: "C12", File: "ytypes/node.go",
+		Old: "\t\t\t\t\tif om, isOrderedMap := fv.Interface().(ygot.GoOrderedMap); isOrderedMap {", New: "\t\t\t\t\tif om, isOrderedMap := fv.Interface().(ygot.GoOrderedMap); isOrderedMap && om.Len() < 0 {", Expect: "struct-zero-test"})
+}
